@@ -85,6 +85,21 @@ CLAIMED = {
             "trusted: pyvc, z3, cvc5",
             "contract-based deductive verification: VCs generated from the AST of the real functions and their SQL text, "
             "discharged by z3 / cvc5"),
+    "C02": ("proof",
+            "Deductive proof of the framing clauses on the real Codec.encode (tag loop by the append-only rule: any set of "
+            "body fields) and on what the real send_msg (encode inlined, every connected state) hands to the transport: the "
+            "byte string starts with 8=, 9=<digits>, 35= in that order, ends with 10= + zero-padded number + SOH, BodyLength "
+            "equals the number of BYTES between the BodyLength field and the CheckSum field and CheckSum equals the byte sum "
+            "modulo 256 - for every text (all code points), CompIDs, type and sequence number, piecewise over the term the "
+            "code builds (utf-8 / length / sums as homomorphisms). One genuine defect repaired (fix: 7bea634 send_msg refuses "
+            "non-ASCII text instead of transmitting a frame whose BodyLength / CheckSum count characters); the encoder alone "
+            "stays a known finding (C02-KF1, pinned by the suite). Syntactic obligations: encode / write only in send_msg.",
+            "DESIGN.md 4/C02 and 9",
+            "assumed: A-HOM and U1-U3 (facts about utf-8), append-only loop rule for the tag loop, '%0.3i' lemma by exhaustive "
+            "evaluation, lone surrogates (UnicodeEncodeError before the write) not modelled; replay = search of a failing "
+            "input in a fixed battery of messages checked by an independent framing parser; trusted: pyvc, z3 (queries "
+            "with string terms abstracted to atoms - a sound weakening)",
+            "contract-based deductive verification: VCs generated from the AST of the real functions, discharged by z3"),
     "C19": ("proof",
             "Deductive proof, one task per datatype used by the two dictionaries (25 types + the EndSeqNo special case + "
             "enumerated fields): the real SchemaField.validate_value and its helpers are executed on one arbitrary non-empty "
